@@ -21,7 +21,7 @@ NAN = float("nan")
 
 
 def plan(tier, seed):
-    n = 8 if tier == "quick" else 200
+    n = 12 if tier == "quick" else 200
     return [{"seed": seed, "k": k, "n": n} for k in range(16)]
 
 
